@@ -8,6 +8,8 @@ Wz sequence DEFINED by the phases.
 import math
 from fractions import Fraction
 
+import zlib
+
 import numpy as np
 
 import core
@@ -105,7 +107,12 @@ def one(ctx, A, p, klass, eps, suc, box, bits_vec):
                 ctx.count("settings:library-defaults")
                 ph = A.angle_sequence(pobj)
             else:
-                ph = A.angle_sequence(pobj, eps=eps, suc=suc)
+                # the settings as the numbers a caller holds: Python floats or NumPy scalars (what numpy arithmetic returns)
+                sform = zlib.crc32(repr((list(p), eps, suc, "scalar-form")).encode()) % 4
+                ctx.count("setting-types:" + ["float,float", "float64,float64", "float,float64", "float64,float"][sform])
+                e_arg = np.float64(eps) if sform in (1, 3) else eps
+                s_arg = np.float64(suc) if sform in (1, 2) else suc
+                ph = A.angle_sequence(pobj, eps=e_arg, suc=s_arg)
         out = ("ok", [float(x) for x in ph])
         core.poison(ph)
     except Exception as e:  # noqa
